@@ -2,6 +2,7 @@ package c01
 
 import (
 	"fmt"
+	"time"
 
 	apiv1 "k8s.io/api/core/v1"
 	discoveryV1 "k8s.io/api/discovery/v1"
@@ -53,6 +54,11 @@ func mutate(r *rng.R, obj client.Object, namespaces []string) (client.Object, st
 		a["verif/touched"] = fmt.Sprint(r.Intn(1000))
 		o.SetAnnotations(a)
 		return o, "annotation"
+	}
+	if o.GetDeletionTimestamp() == nil && r.Chance(4, 100) {
+		// deletion requested while a finalizer holds the object: it stays in the cluster (Terminating), possibly for good
+		markTerminating(o)
+		return o, "mark-terminating"
 	}
 	switch x := o.(type) {
 	case *ngfAPI.NginxGateway:
@@ -617,6 +623,13 @@ func Generate(r *rng.R, maxOps int) *History {
 		}
 	}
 	return h
+}
+
+// markTerminating: what the object looks like once its deletion was requested while a finalizer holds it.
+func markTerminating(o client.Object) {
+	o.SetFinalizers(append(o.GetFinalizers(), HoldFinalizer))
+	ts := metav1.NewTime(p.Epoch.Add(1000 * time.Hour))
+	o.SetDeletionTimestamp(&ts)
 }
 
 func selectorTeamDev() *metav1.LabelSelector {
